@@ -356,6 +356,7 @@ type World struct {
 	inNew        bool
 	opScans      int
 	opFetch      int
+	sched        *Sched          // the scheduler of the running Index call's scanner goroutines, if any
 	callCtx      context.Context // the caller's context of the running Index call
 	ph           *phase          // coalescer synchronisation of the running Index call
 }
@@ -388,6 +389,19 @@ var letters = map[string]byte{
 // enter numbers a call and decides its fate. It returns (err, commit):
 // err == nil: proceed; err != nil && commit: apply the effect, then fail.
 func (w *World) enter(ctx context.Context, letter byte) (error, bool) {
+	return w.enterAs(ctx, letter, "")
+}
+
+// enterAs is enter for a call made by the scanner closure `who` (see Sched):
+// under a scheduler the call first parks until it is granted, and its fate is
+// what the grant says instead of what the position script says.
+func (w *World) enterAs(ctx context.Context, letter byte, who string) (error, bool) {
+	var granted byte
+	if s := w.sched; s != nil && who != "" {
+		if f, ok := s.park(ctx, who, letter); ok {
+			granted = f
+		}
+	}
 	w.mu.Lock()
 	defer w.mu.Unlock()
 	if !w.active {
@@ -415,7 +429,11 @@ func (w *World) enter(ctx context.Context, letter byte) (error, bool) {
 	if err := ctx.Err(); err != nil {
 		return fail(err)
 	}
-	switch w.script[p] {
+	fate := w.script[p]
+	if granted != 0 {
+		fate = granted
+	}
+	switch fate {
 	case FErr:
 		return fail(ordinaryError(p, letter))
 	case FCanceled:
@@ -457,7 +475,11 @@ func (w *World) storeHook(ctx context.Context, c memstore.Call) memstore.Verdict
 	if !ok {
 		return memstore.Verdict{}
 	}
-	err, commit := w.enter(ctx, l)
+	who := ""
+	if (l == 'L' || l == 'I' || l == 'K') && len(c.Scanners) == 1 {
+		who = threadKey(c.Layer, memstore.KeyOf(c.Scanners[0]))
+	}
+	err, commit := w.enterAs(ctx, l, who)
 	return memstore.Verdict{Err: err, Commit: commit}
 }
 
@@ -474,13 +496,13 @@ func (s *stub) Kind() string    { return s.spec.KindName() }
 
 // scan is the common part of the three Scan methods.
 func (s *stub) scan(ctx context.Context, l *claircore.Layer) ([]int, error) {
-	err, commit := s.w.enter(ctx, 'S')
+	err, commit := s.w.enterAs(ctx, 'S', threadKey(l.Hash.String(), memstore.ScannerKey{Name: s.Name(), Version: s.Version(), Kind: s.Kind()}))
 	if err != nil && !commit {
 		return nil, err
 	}
 	s.w.mu.Lock()
 	if !l.Fetched() {
-		if s.w.active && s.w.Concurrency <= 1 {
+		if s.w.active && (s.w.Concurrency <= 1 || s.w.sched != nil) {
 			// the call was traced as successful; it is not
 			s.w.trace[len(s.w.trace)-1] = 's'
 		}
@@ -663,7 +685,7 @@ func (c *stubCoalescer) enter(ctx context.Context) error {
 	if !active {
 		return ctx.Err()
 	}
-	if ph == nil || w.Concurrency > 1 {
+	if ph == nil || (w.Concurrency > 1 && w.sched == nil) {
 		err, _ := w.enter(ctx, 'C')
 		return err
 	}
@@ -1073,6 +1095,8 @@ type Result struct {
 	Panic    bool
 	NScans   int // stub Scan entries during this call
 	NFetch   int // layers realized during this call
+	// SchedFirst: under a scheduler, the kind of the first fault it granted (0: none)
+	SchedFirst byte
 }
 
 func classOf(err error) string {
